@@ -27,5 +27,8 @@ func main() {
 			os.Exit(2)
 		}
 	}
-	out.Write()
+	if cmd != "crashchild" {
+		out.Done()
+		out.Write()
+	}
 }
